@@ -756,8 +756,10 @@ def _static(ctx: Ctx, ro: FuncInfo, m: RunOde) -> None:
     init_ = getattr(r_, "methods", {}).get("__init__") if r_ else None
     if init_ is not None:
         want_ = init_.params[1:]
-        got_ = [ast.unparse(a) for a in m.mk_state.args]
-        if m.mk_state.keywords or got_ != want_ or any(
+        from sa.srcmodel import bound_args as _ba
+        ba_ = _ba(m.mk_state, list(want_))
+        got_ = [ast.unparse(ba_[w]) if w in ba_ else "?" for w in want_]
+        if got_ != want_ or any(
                 w not in ro.params for w in want_):
             bad.append(f"the bound tracker is created with ({', '.join(got_)}"
                        f") for parameters ({', '.join(want_)})")
